@@ -76,7 +76,18 @@ SpecEmission(c) == LET s == Seen(c) IN
 CAccepts(c, k) == k >= c.r + c.p /\ (c.rest \/ k <= c.r + c.o + c.p)
 SpecArityOK(c) == \A k \in 0..6 : CAccepts(c, k) <=> CfgAccepts(SpecEmission(c), k)
 
-\* mrb_get_args format: a sequence over "i" "S" "o" (one argument each), "|" (the rest is optional), "*" (rest), "&" (block)
+\* MRB_ARGS_ANY(): the function takes whatever it is given
+AnyEmission == <<P("rest")>>
+AnyArityOK == \A k \in 0..6 : CfgAccepts(AnyEmission, k)
+
+\* mrubyc style (mrbc_define_method, no specification): the body reads GET_<T>_ARG(1..n); with a guard
+\* `if (argc >= m)` the arguments m..n are read only when given.   [n, m]  m = 0: no guard
+GetArgEmission(g) == [i \in 1..g.n |-> P(IF g.m > 0 /\ i >= g.m THEN "opt" ELSE "req")]
+GetArgAccepts(g, k) == IF g.m = 0 THEN k = g.n ELSE k >= g.m - 1 /\ k <= g.n
+GetArgArityOK(g) == \A k \in 0..6 : GetArgAccepts(g, k) <=> CfgAccepts(GetArgEmission(g), k)
+
+\* mrb_get_args format: a sequence over "i" "S" "o" (one argument each), "|" (the rest is optional), "*" (rest), "&" (block),
+\* "!" and "?" (modifiers of the preceding specifier: no argument of their own)
 FormatEmission(f) ==
     LET bar == IF \E i \in DOMAIN f : f[i] = "|" THEN CHOOSE i \in DOMAIN f : f[i] = "|" ELSE Len(f) + 1
         ArgAt(i) == CASE f[i] \in {"i", "S", "o"} -> <<P(IF i > bar THEN "opt" ELSE "req")>>
